@@ -55,8 +55,7 @@ Definition C10_full : Prop := forall (mangle : text -> text) t,
 (* Proved for every mangle function and every tree over the modelled heads (literals, symbols,
    keywords, list/tuple/set/dict displays, calls with keyword and unpacking arguments, the
    operator macros, and/or, if, get, unpack-iterable, chainc; other heads give CUnmodelled)
-   that avoids the shapes of [good]: dict displays in which a #** form sits in a value position, an
-   argument-less (unpack-mapping) form (and, as a sufficient condition kept from before the fix aeaad9f, chainc
+   that avoids the shapes of [good]: dict displays in which a #** form sits in a value position (and, as a sufficient condition kept from before the fix aeaad9f, chainc
    without a comparison pair, which the grammar now rejects).
    The outcome is a validator-accepted AST or a user-facing error -- never an internal one. *)
 Theorem C10_compile_outcome_classes_partial : forall (mangle : text -> text) t, good t = true ->
@@ -65,11 +64,11 @@ Proof. exact compile_outcome. Qed.
 Print Assumptions C10_compile_outcome_classes_partial.
 
 (* Each excluded shape refutes the full statement (witnesses replayed on the real compiler:
-   findings C10-dict-unpack-in-value-position, C10-bare-unpack-mapping). *)
+   finding C10-dict-unpack-in-value-position; the argument-less (unpack-mapping) form is a syntax error since b5377ba). *)
 Theorem C10_refuted_dict_unpack_misaligned :
   exists e, compile toy_mangle (HDict [x_; HExpr [HSym s_unpack_mapping; x_]; x_]) = COk e /\ validate e = false.
 Proof. exact refuted_dict_unpack_misaligned. Qed.
-(* after the fixes bac53a5 / c0e258f / aeaad9f an odd dict, a #** operand of a comparison and a chainc without
+(* after the fixes bac53a5 / c0e258f / aeaad9f / b5377ba an odd dict, a #** operand of a comparison and a chainc without
    a comparison pair are user-facing errors *)
 Example C10_chainc_single_is_user_error : compile toy_mangle (HExpr [sym [99;104;97;105;110;99]; x_]) = CUser.
 Proof. exact chainc_single_is_user_error. Qed.
@@ -78,14 +77,9 @@ Proof. exact odd_dict_is_user_error. Qed.
 Example C10_compare_unpack_mapping_is_user_error :
   compile toy_mangle (HExpr [sym [61]; x_; x_; HExpr [HSym s_unpack_mapping; x_]]) = CUser.
 Proof. exact compare_unpack_mapping_is_user_error. Qed.
-Theorem C10_refuted_bare_unpack_mapping : compile toy_mangle (HList [HExpr [HSym s_unpack_mapping]]) = CInternal.
-Proof. exact refuted_bare_unpack_mapping. Qed.
-Print Assumptions C10_refuted_bare_unpack_mapping.
-
-(* a Python exception inside a macro is wrapped into a user-facing error (MacroExceptions) *)
-Example C10_internal_error_inside_macro_is_user_facing :
-  compile toy_mangle (HExpr [sym [43]; HInt 1; HList [HExpr [HSym s_unpack_mapping]]]) = CUser.
-Proof. exact bare_unpack_mapping_inside_macro. Qed.
+Example C10_bare_unpack_mapping_is_user_error : compile toy_mangle (HList [HExpr [HSym s_unpack_mapping]]) = CUser.
+Proof. exact bare_unpack_mapping_is_user_error. Qed.
+Print Assumptions C10_refuted_dict_unpack_misaligned.
 
 Example C10_good_nontrivial :
   good (HExpr [sym [102]; HExpr [sym [43]; HInt 1; HExpr [sym [60]; x_; HInt 2; HInt 3]]; HKw (t_of [107]); HDict [HStr []; x_]]) = true.
